@@ -28,6 +28,10 @@
 //	  in-flight batch released first, so that a second writer shows as a reordering).
 //	output: writers=<k> inflight=<m> | B <ids:+ ...>
 //
+//	race <ms> <goroutines>   stress probe for submit racing close (real goroutines, no control): for <ms>
+//	  milliseconds coalescers are created, fed by <goroutines> senders and closed concurrently; every
+//	  message whose submit returned nil must have been flushed.  output: lost=<n>  (0 by theorem C27_close_complete)
+//
 //	fq <size> op...    the failure fan-out of actor/remote_server.go on a real, started actor system:
 //	  e<n>  enqueueCoalescedFailure with a failed batch of n messages (ids count up from 0)
 //	  d / u shuttingDown := true / false
@@ -541,6 +545,15 @@ func handle(line string) string {
 	}
 	if len(f) >= 1 && f[0] == "gc" {
 		return handleGC(f)
+	}
+	if len(f) == 3 && f[0] == "race" {
+		ms, err1 := strconv.Atoi(f[1])
+		g, err2 := strconv.Atoi(f[2])
+		if err1 != nil || err2 != nil || ms < 1 || ms > 60000 || g < 1 || g > 256 {
+			return "bad-case"
+		}
+		_, lost := remoteclient.VerifRaceClose(time.Duration(ms)*time.Millisecond, g, 4)
+		return fmt.Sprintf("lost=%d", lost)
 	}
 	if len(f) < 3 || f[0] != "co" {
 		return "bad-case"
